@@ -6,6 +6,7 @@ class C03(TieCheck):
     area = "Route"
     props = ["Props_C03.v"]
     coq_targets = ["Heap2.vo", "HeapProofs.vo"]
+    gentie = "C03"
     harness = "c03"
     extra_trust = [
         "model: coq/Route/Heap.v (copyOnWriteSearch, tXn.insert/update/remove/truncate/snapshot/clone/commit, node.clone/newNode/newNodeFromRef/updateEdge, root slice operations transliterated over an explicit heap of node and array objects; writable LRU = list with arbitrary eviction) run through Heap2.step (router, write transaction, snapshots); tied to /repo by graph isomorphism of the dumped object graph (addresses renamed in first-visit order on both sides) after every event",
